@@ -21,6 +21,10 @@ func main() {
 	timeout := flag.Int("timeout-ms", 0, "per-query solver timeout")
 	verifDir := flag.String("verif", "/verif", "verif directory")
 	list := flag.Bool("list", false, "list case ids")
+	child := flag.Bool("child", false, "internal: run one shard and write JSON lines")
+	shard := flag.String("shard", "0/1", "internal: shard k/n")
+	outFile := flag.String("out", "", "internal: result file of a child")
+	inproc := flag.Bool("inprocess", false, "run all cases in this process (debugging)")
 	flag.Parse()
 	seed := int64(1)
 	if s := os.Getenv("VERIF_SEED"); s != "" {
@@ -57,6 +61,13 @@ func main() {
 		cfg.TimeoutMs = *timeout
 	}
 	cfg.VerifDir = *verifDir
+	cfg.Child = *child
+	cfg.OutFile = *outFile
+	cfg.InProcess = *inproc
+	fmt.Sscanf(*shard, "%d/%d", &cfg.ShardIdx, &cfg.ShardN)
+	if cfg.ShardN == 0 {
+		cfg.ShardN = 1
+	}
 	if *replay != "" {
 		os.Exit(e2.ReplayFile(cfg, cases, *replay))
 	}
